@@ -24,11 +24,19 @@
 //!   exercise timeout paths.
 
 #[cfg(not(loom))]
+#[cfg(not(excsn_fibre_verif))]
 mod real;
 #[cfg(loom)]
 mod mocked;
 
 #[cfg(not(loom))]
+#[cfg(not(excsn_fibre_verif))]
 pub(crate) use real::*;
 #[cfg(loom)]
 pub(crate) use mocked::*;
+
+// Deterministic-simulation backend (off by default): under `--cfg excsn_fibre_verif` the
+// primitives come from the external `fibre_verif_rt` crate, which only the verification
+// harness' shadow manifest supplies. Same export list as `real.rs` / `mocked.rs`.
+#[cfg(excsn_fibre_verif)]
+pub(crate) use fibre_verif_rt::chan::*;
